@@ -224,7 +224,7 @@ def run(ctx, out, budget):
     if budget == "quick":
         sess = [gen_session(rng, 40) for _ in range(150)]
     else:
-        sess = [gen_session(rng, 40) for _ in range(1500)] + [gen_session(rng, 400) for _ in range(100)]
+        sess = [gen_session(rng, 40) for _ in range(9000)] + [gen_session(rng, 400) for _ in range(500)]
     evaluate(ctx, out, sess, "h")
 
 
